@@ -509,6 +509,7 @@ MANIFEST_TEXT = ("C11: row-operation = left multiplication and the compile-loop 
                  "output, partial")
 
 TOL = 1e-9
+TRANSIENT = []  # mismatches that vanished when the reference was recomputed (reported as a broken obligation)
 
 
 def _close(a, b, tol=TOL):
@@ -531,6 +532,13 @@ def judge(compiler, spec, dec, out_spec):
         return ["acts-on-unused-modes"], "compiled program acts on modes %s, source used %s" % (out_modes, used)
     out = source_channel(out_spec, used)
     if channels_close(src, out):
+        return None
+    # a failure must persist when the reference is recomputed from scratch
+    _CH_CACHE.clear()
+    src = source_channel(spec["cmds"], used)
+    out = source_channel(out_spec, used)
+    if channels_close(src, out):
+        TRANSIENT.append(("pure", compiler, spec))
         return None
     d0 = channel_dist(src, out)
     enum = set_order([c[2] for c in dec])
@@ -848,6 +856,12 @@ def check_merge_case(ctx, spec, report=True):
             src = hybrid_channel(spec["cmds"], used)
             dst = hybrid_channel(out, used)
             if not channels_close(src, dst, 1e-6):
+                _CH_CACHE.clear()  # a failure must persist when the reference is recomputed from scratch
+                src = hybrid_channel(spec["cmds"], used)
+                dst = hybrid_channel(out, used)
+                if channels_close(src, dst, 1e-6):
+                    TRANSIENT.append(("merge", "gaussian_merge", spec))
+            if not channels_close(src, dst, 1e-6):
                 dec = spec_of_circuit(compiler_db["gaussian_merge"]().decompose(prog.circuit))
                 wires_ok = all(wire_projection(dec, w) == wire_projection(out, w) for w in used)
                 total_ok = channels_close(hybrid_channel(spec["cmds"], used, "identity"), hybrid_channel(out, used, "identity"), 1e-6)
@@ -1069,6 +1083,7 @@ def search(ctx):
                 fd = fock_differs(small)
                 ctx.notes.append("gaussian_merge %s: Fock-backend confirmation on the shrunk case: %s" % (sig, fd))
     run_validator(ctx, vcases)
+    ctx.obligation("reference-deterministic", not TRANSIENT, "mismatches that vanished on recomputation: %r" % TRANSIENT[:3])
 
 
 def run_validator(ctx, vcases):
